@@ -4,7 +4,7 @@ From Verif Require Import Sx Str Tok.
 From Verif.Model Require Import CharRef TokBase Ser.
 From Verif.Spec Require Import TokSpec.
 From Verif.Gen Require Import Consts.
-From Verif.Proofs Require Import C08 SpecTac C08tag.
+From Verif.Proofs Require Import C08 SpecTac C08comment C08doctype C08tag.
 Import ListNotations.
 Local Open Scope N_scope.
 
@@ -70,14 +70,46 @@ Theorem c08_end_tag_roundtrip : forall name rest cu t out cd, tname_ok name = tr
             = Some (mk_tk dataState rest (CTag true (lower_str name) [] false) t (OEnd (lower_str name) [] false :: out) cd false).
 Proof. exact end_tag_roundtrip. Qed.
 
-(* WHOLE STREAMS of text, inter-element whitespace, start/empty tags and end tags in which no element is
-   written in raw-text mode: if Ser accepts the stream (with or without reporting errors), S_tok reads its
-   output back as exactly the stream ([rd_tok]), token by token, ending in the data state. *)
+(* COMMENTS.  For EVERY comment text d that Ser writes without reporting an error -- no "--" inside, not starting
+   with ">" or "->" ([c08_comment_errors] below: exactly the cases in which Ser's error list stays empty) -- the
+   text "<!--" d "-->" is read back as exactly one comment with that text (a text ending in "-" included). *)
+Theorem c08_comment_roundtrip : forall d rest cu t o cd,
+  no_dd d = true -> starts_with [62] d = false -> starts_with [45; 62] d = false ->
+  exists j, sp_iter j (mk_tk dataState ([60; 33; 45; 45] ++ d ++ [45; 45; 62] ++ rest) cu t o cd false)
+            = Some (mk_tk dataState rest (CComment (map nulfix d)) t (OComment (map nulfix d) :: o) cd false).
+Proof. exact comment_roundtrip. Qed.
+Theorem c08_comment_errors : forall o d,
+  ser_token o false (TComment d) = Some (false, [60; 33; 45; 45] ++ d ++ [45; 45; 62], []) ->
+  no_dd d = true /\ starts_with [62] d = false /\ starts_with [45; 62] d = false.
+Proof. exact ser_comment_ok. Qed.
+
+(* DOCTYPES.  Name non-empty without whitespace and ">"; identifiers that Ser can quote (not both kinds of quote
+   inside, otherwise it reports an error) and without ">": read back as exactly that doctype (name lower-cased,
+   an empty identifier reads as absent, force-quirks off) whichever of the four shapes Ser writes. *)
+Theorem c08_doctype_roundtrip : forall n pub sys rest cu t out cd,
+  dname_ok n = true ->
+  (nonempty pub = true -> id_ok (oget pub) = true) -> (nonempty sys = true -> id_ok (oget sys) = true) ->
+  exists j, sp_iter j (mk_tk dataState (fst (ser_doctype (Some n) pub sys) ++ rest) cu t out cd false)
+            = Some (mk_tk dataState rest (CDoctype (rdn n) (rd_id pub) (rd_id sys) true) t
+                      (ODoctype (rdn n) (rd_id pub) (rd_id sys) true :: out) cd false).
+Proof. exact doctype_roundtrip. Qed.
+
+(* WHOLE STREAMS of doctype, comments, text, inter-element whitespace, start/empty tags and end tags in which no
+   element is written in raw-text mode: if Ser accepts the stream, S_tok reads its output back as exactly the
+   stream ([rd_tok]), token by token, ending in the data state. *)
 Theorem c08_stream_roundtrip : forall o, qc_ok o -> forall ts txt errs rest cu tm out cd,
   Forall (safe_tok o) ts -> ser_loop o false ts = Some (txt, errs) ->
   exists j cu', sp_iter j (mk_tk dataState (txt ++ rest) cu tm out cd false)
                 = Some (mk_tk dataState rest cu' tm (rev (flat_map (rd_tok o) ts) ++ out) cd false).
 Proof. exact stream_roundtrip. Qed.
+
+(* "... or an error is reported": for streams of that shape with ARBITRARY comment texts, an empty error list is
+   enough -- the conditions on comments are exactly Ser reporting nothing *)
+Theorem c08_stream_roundtrip_or_error : forall o, qc_ok o -> forall ts txt rest cu tm out cd,
+  Forall (shape_tok o) ts -> ser_loop o false ts = Some (txt, []) ->
+  exists j cu', sp_iter j (mk_tk dataState (txt ++ rest) cu tm out cd false)
+                = Some (mk_tk dataState rest cu' tm (rev (flat_map (rd_tok o) ts) ++ out) cd false).
+Proof. exact stream_roundtrip_no_errors. Qed.
 
 (* non-vacuity of the stream theorem: <a href=x&amp;y hidden="">1 &lt; 2</a> with the default options *)
 Example c08_stream_example :
@@ -95,8 +127,8 @@ Example c08_example :
   ser_attr_value (mk_sopts 2 34 true true false true false false true) [97;34;38] = [39;97;34;38;97;109;112;59;39].
 Proof. split; vm_compute; reflexivity. Qed.
 
-(* PARTIAL.  Proved: text, quoted and unquoted values, tag and attribute names, start and end tags, and the lift
-   to whole streams of these without raw-text elements.  Not proved: comments, doctypes, raw-text elements
-   (script, style, ...: written unescaped by design) and entity tokens; these are decided on every run by
+(* PARTIAL.  Proved: text, quoted and unquoted values, tag and attribute names, start and end tags, comments,
+   doctypes, and the lift to whole streams of these without raw-text elements.  Not proved: raw-text elements
+   (script, style, ...: written unescaped by design), entity tokens, identifiers containing ">"; these are decided on every run by
    re-tokenizing the real serializer's output with S_tok (extracted) for generated trees x options -- a test,
    with seven listed findings.  Ser itself is a hand model tied to the code by the correspondence run. *)
